@@ -134,9 +134,16 @@ def channelize_streaming(vc):
         return SCplx(Sym(Sre(q), 'real'), Sym(Sim(q), 'real')) if cplx else Sym(Sre(q), 'real')
     Lfed = 0 if first else a * P                      # samples fed since the last reset (multiple of taps*B)
     h = symbolic_array('h', (P,))
+    # heap shape the code leaves behind: the cache is a *view* of the tail of the array the caller passed last time (the caller still owns
+    # that array); the filterbank may re-bind its cache but must never write through it.  (The view holds the last P samples; the
+    # caller's array is modelled from the view's start on, which is all the contract needs.)
+    xprev = None if first else SArr((P + Int('prev_extra'),), lambda idx: S(Lfed - P - Int('prev_extra') + idx[0]), 'complex' if cplx else 'real')
+    if not first:
+        vc.assume(Int('prev_extra') >= 0)
     fb = mkobj(vc, PFB, num_taps=taps, num_branches=B, window=h, window_fn='hamming', channelized_stds=None,
-               cache=None if first else SArr((P,), lambda idx: S(Lfed - P + idx[0]), 'complex' if cplx else 'real'))
+               cache=None if first else vc.interp.getitem(xprev, slice(Int('prev_extra'), None)))
     x = SArr((m * P,), lambda idx: S(Lfed + idx[0]), 'complex' if cplx else 'real')
+    w_prev, w_x = (xprev.writes if xprev is not None else 0), x.writes
     vc.expected_W = m if first else m + 1
     frontend_modular(vc, cplx)
     out = vc.call(PFB + '.channelize', fb, x, cache=True)
@@ -160,6 +167,7 @@ def channelize_streaming(vc):
               And(isinstance(c, SArr) and c.ndim == 1, eq(c.shape[0], P),
                   Implies(And(q >= 0, q < P), And(eq(SCplx.lift(c.at((q,))).re, SCplx.lift(S(L2 - P + q)).re), eq(SCplx.lift(c.at((q,))).im, SCplx.lift(S(L2 - P + q)).im)))))
     vc.ensure('C08/channelize/frame/only-cache-modified', And(fb.fields['window'] is h, eq(fb.fields['num_taps'], taps), eq(fb.fields['num_branches'], B)))
+    vc.ensure('C08/channelize/frame/caller-arrays-never-written', And(x.writes == w_x, xprev is None or xprev.writes == w_prev))
 
 
 @contract('C08', 'channelize_one_shot', functions=[PFB + '.channelize'])
